@@ -62,4 +62,21 @@ META = {
                 "stated in Lean yet).",
         "technique": "Lean 4 proof: parser-state invariant by induction over tokens and escaped runs; differential correspondence",
     },
+    "C01": {
+        "text": "Unbounded Lean theorems on a model that mirrors the predictor: += on positional weights adds denotations "
+                "(C01_addAssign_denote); add_score in both layouts (fixed 8-wide / variable incl. left overhang) never panics under "
+                "the stated bounds and adds exactly the denoted weight (C01_addScore); the mirrored merge algorithm (sorted map, "
+                "visited flags, suffix chain, back-propagation) gives every pattern the sum over all its suffix patterns "
+                "(C01_merge_correct, generic in the weight type); the type-score cache equals the type n-gram part of the "
+                "specification (C01_cache_correct); and the main theorem C01_scores: for every well-formed model, every build "
+                "configuration (fixed/variable, cache/automaton, with/without tag scorer), every predictor built from it and every "
+                "non-empty text, predict does not panic, boundary_scores = the pointwise linear model (pattern-indexed sum over all "
+                "occurrences), labels = sign of the score with no unknown left, nothing else changes. Tied to /repo by an exhaustive "
+                "small scope and random well-formed models (all window classes) with a brute-force oracle in the harness.",
+        "design_ref": "DESIGN.md §6 C01",
+        "note": _common_note + "Assumed, not proved: no i32 overflow in score sums (scores are unbounded Int in the model); the daachorse "
+                "automaton contract (longest pattern per end position; all patterns for the cache builder); byte-wise and "
+                "character-wise automata coincide at character level; get_type codes in 1..6 are re-derived from the regenerated table.",
+        "technique": "Lean 4 proof (merge invariant, longest-match/all-occurrences exchange of sums, buffer arithmetic) + translator table + differential correspondence",
+    },
 }
